@@ -196,7 +196,7 @@ def _obj(x):
         if x[4] == 'obj':
             return common.make_net(x[1], x[2], x[3])
         return IPNetwork('%s/%d' % (_astr(x[1], x[2]), x[3]))
-    return IPRange(IPAddress(x[2], x[1]), IPAddress(x[3], x[1]))
+    return common.make_range(x[1], x[2], x[3])
 
 
 def impl(c):
